@@ -17,6 +17,7 @@ def PInv (G : Asg → Prop) (n : Node2) : Prop :=
 
 theorem proj_clause : ∀ n : Node2, n.proj1.clause = n.proj2.clause
   | .leaf c o ls => by cases o <;> rfl
+  | .leafT c ls i1 i2 => rfl
   | .res n1 n2 p => by simp only [Node2.proj1, Node2.proj2, Node.clause, proj_clause n1, proj_clause n2]
 
 theorem pairOK_absent : pairOK ⟨false, false⟩ ⟨false, false⟩ = true := by decide
@@ -41,6 +42,9 @@ theorem node_pairOK : ∀ n : Node2, n.labelsOK = true → ∀ v, pairOK (n.proj
   | .leaf c o ls, h, v => by
     simp only [Node2.labelsOK, Bool.and_eq_true] at h
     cases o <;> exact labs_pairOK ls h.1 v
+  | .leafT c ls i1 i2, h, v => by
+    simp only [Node2.labelsOK, Bool.and_eq_true] at h
+    exact labs_pairOK ls h.1 v
   | .res n1 n2 p, h, v => by
     simp only [Node2.labelsOK, Bool.and_eq_true] at h
     simp only [Node2.proj1, Node2.proj2, Node.lab]
@@ -51,6 +55,9 @@ theorem labelled1 : ∀ n : Node2, n.labelsOK = true → ∀ l ∈ n.proj1.claus
   | .leaf c o ls, h, l, hl => by
     simp only [Node2.labelsOK, Bool.and_eq_true, List.all_eq_true, Bool.not_eq_true'] at h
     cases o <;> exact h.2 l (by simpa [Node2.proj1, Node.clause] using hl)
+  | .leafT c ls i1 i2, h, l, hl => by
+    simp only [Node2.labelsOK, Bool.and_eq_true, List.all_eq_true, Bool.not_eq_true'] at h
+    exact h.2 l (by simpa [Node2.proj1, Node.clause] using hl)
   | .res n1 n2 p, h, l, hl => by
     simp only [Node2.labelsOK, Bool.and_eq_true] at h
     simp only [Node2.proj1, Node.clause, List.mem_append, List.mem_filter] at hl
@@ -239,6 +246,9 @@ theorem pinv_all (G) : ∀ n : Node2, n.labelsOK = true → n.proj1.structOk = t
   | .leaf c .first ls, h, _, _ => leaf_first G c ls h
   | .leaf c .middle ls, h, _, hm => leaf_middle G c ls h hm
   | .leaf c .last ls, h, _, _ => leaf_last G c ls h
+  | .leafT c ls i1 i2, _, _, hm => by
+    intro σ hG h1 hx
+    exact hm σ hG h1 (by simpa [restrX, inX, Node2.proj1, Node2.proj2, Node.clause, Node.lab] using hx)
   | .res n1 n2 p, h, hs, hm => by
     have hl := h
     simp only [Node2.labelsOK, Bool.and_eq_true] at hl
